@@ -1048,7 +1048,10 @@ impl Runner {
             Ok(Err(e)) => (e, false, vec![]),
             Err(_) => ("panic".to_string(), true, vec![]),
         };
-        self.log.emit(json!({"ev": "obs", "what": "walk", "band": -1, "picked": -1,
+        // names that are not valid UTF-8 cannot be archive paths: the walk is expected to pass over
+        // them (and over what lies below them)
+        let undecodable: Vec<Vec<Vec<u8>>> = self.src_tree.iter().filter(|n| n.p.iter().any(|c| std::str::from_utf8(c).is_err())).map(|n| n.p.clone()).collect();
+        self.log.emit(json!({"ev": "obs", "what": "walk", "band": -1, "picked": -1, "undecodable": undecodable,
             "subtree": [], "has_subtree": false, "match": match_facts(&excl, &src_paths), "excl": excl,
             "overwrite": false, "dest": "", "res": res, "panic": panic, "pmsg": take_panic(), "timeout": false,
             "mon_errors": 0, "mon_list": [],
@@ -1217,8 +1220,12 @@ impl Runner {
             x ^= x << 17;
             x
         };
+        let only = st.get("only").and_then(|x| x.as_str()).unwrap_or("").to_string();
         for (f, len) in &files {
             if f == "CONSERVE" && !with_header {
+                continue;
+            }
+            if !only.is_empty() && decode::key_of(f)["t"] != only.as_str() {
                 continue;
             }
             if f.ends_with("BANDTAIL") && !with_tails {
@@ -1268,8 +1275,13 @@ impl Runner {
                 }
                 // one of every kind of difference first, then more of the kinds that touch addresses
                 let mut chosen: Vec<u64> = Vec::new();
-                for (_, v) in by_sig.iter() {
-                    chosen.push(v[(rnd() % v.len() as u64) as usize]);
+                let hot = |k: &str| k.contains("a.") || k.contains("p@last") || k.contains("p@first") || k.contains("es.count") || k.contains("count");
+                for pass in 0..2 {
+                    for (k, v) in by_sig.iter() {
+                        if hot(k) == (pass == 0) {
+                            chosen.push(v[(rnd() % v.len() as u64) as usize]);
+                        }
+                    }
                 }
                 let addr: Vec<u64> = by_sig.iter().filter(|(k, _)| k.contains("a.")).flat_map(|(_, v)| v.iter().cloned()).collect();
                 let mut extra = 0;
